@@ -64,3 +64,13 @@ theorem max_abs_nonneg {N : ℕ} (w : Fin (N + 1) → ℝ) : 0 ≤ Finset.sup' F
 theorem ml_neg_sub (a b : ℝ) : b - a = -(a - b) := (neg_sub a b).symm
 theorem ml_neg_sq (a : ℝ) : (-a) ^ 2 = a ^ 2 := neg_sq a
 theorem ml_sub_self (a : ℝ) : a - a = 0 := sub_self a
+
+/-- a positive definite matrix has a positive quadratic form on non-zero vectors (ITML: p = v^T A v > 0) -/
+theorem posDef_quad_pos {n : Type*} [Fintype n] [DecidableEq n] (A : Matrix n n ℝ) (hA : A.PosDef) (v : n → ℝ) (hv : v ≠ 0) :
+    0 < (v ᵥ* A) ⬝ᵥ v := by
+  have h := hA.dotProduct_mulVec_pos hv
+  simp only [star_trivial] at h
+  rwa [Matrix.dotProduct_mulVec] at h
+
+/-- the identity matrix is positive definite -/
+theorem posDef_one {n : Type*} [Fintype n] [DecidableEq n] : (1 : Matrix n n ℝ).PosDef := Matrix.PosDef.one
